@@ -167,7 +167,7 @@ func (cons *VgaTextConsole) Write(ch byte, fg, bg uint8, x, y uint32) {
 	if fg > maxColorIndex {
 		fg = cons.defaultFg
 	}
-	if bg >= maxColorIndex {
+	if bg > maxColorIndex {
 		bg = cons.defaultBg
 	}
 
